@@ -99,7 +99,7 @@ def hTableMake : Handler := do
     let num ← getN
     let date ← getList getCell
     let loc ← getFrame; let dd ← getFrame; let imp ← getFrame; let exp ← getFrame
-    pure (Table.singleRelease date loc dd imp exp, num))
+    pure (Table.singleRelease .depthFourth date loc dd imp exp, num))
   let cols ← getOpt (getList getName)
   match Table.makeTable 0.0 groups cols with
   | none => pure "none"
